@@ -30,7 +30,7 @@ RULE = ("cases = way of leaving {DISCONNECT, FIN, RST, FIN/RST after every byte 
 ASSUMPTIONS = ["CLIENT_CLOSED is matched to the departed connection by the client address/port it carries",
                "for a client that closed with FIN, a write by the manager before it services the EOF may succeed or fail",
                "harness clients are drained; every surviving connection is writable"]
-REQUIRE = {"departures": 150, "client_closed_matched": 150, "reconnects_checked": 60, "probe_deliveries_checked": 150,
+REQUIRE = {"departures_while_not_writable": 40, "departures": 150, "client_closed_matched": 150, "reconnects_checked": 60, "probe_deliveries_checked": 150,
            "timing_pid_tables_checked": 100}
 CASE_TIMEOUT = 60
 T, T2 = 1234, 4321
@@ -128,7 +128,8 @@ def build(c):
         steps.append(["sub", "P", 555])
     labels = ["P"] + [L for L, *_ in deps if L not in excluded]
     perm = list(itertools.permutations(labels))[c["perm"] % len(list(itertools.permutations(labels)))]
-    steps.append(["round", {"only": labels, "order": list(perm), "adv": 0.001}])
+    # (some departing clients have fallen behind: the writability snapshot of the round in which they leave does not list them)
+    steps.append(["round", {"only": labels, "order": list(perm), "adv": 0.001, "nw": [L for L, idn, name, d in deps if d.get("nw") and L not in excluded]}])
     steps.append(["drain", {"adv": 0.001}])
     steps.append(["mark_departed"])
     if c.get("tm"):
@@ -180,6 +181,10 @@ def gen_cases(tier, seed):
     for s, w in singles:
         for trig in ("pub", "ctl"):
             add({"d1": {"stage": s, "way": w, "off": 20}, "trigger": trig})
+    # the same departures by a client that is not in the round's writability snapshot (it has fallen behind)
+    for s, w in singles:
+        if w != "write" and not w.startswith("refused"):
+            add({"d1": {"stage": s, "way": w, "off": 20, "nw": True}, "trigger": "pub" if (len(s) + len(w)) % 2 else "ctl"})
     # every byte offset of every frame kind, FIN and RST
     step = 1 if tier == "thorough" else 3
     for fk, ln in FRAME_LEN.items():
@@ -200,8 +205,8 @@ def gen_cases(tier, seed):
     rng.shuffle(pairs)
     npairs = 160 if tier == "quick" else len(pairs)
     for (s1, w1), (s2, w2) in (pairs[:npairs] if tier == "quick" else pairs * 5):
-        add({"d1": {"stage": s1, "way": w1, "off": rng.randint(1, 60)}, "d2": {"stage": s2, "way": w2, "off": rng.randint(1, 60)},
-             "trigger": rng.choice(["pub", "ctl"])})
+        add({"d1": {"stage": s1, "way": w1, "off": rng.randint(1, 60), "nw": rng.random() < 0.15 and w1 != "write" and not w1.startswith("refused")},
+             "d2": {"stage": s2, "way": w2, "off": rng.randint(1, 60)}, "trigger": rng.choice(["pub", "ctl"])})
     for i, c in enumerate(cases):
         c["tc"] = i % 6 == 5
         c["tm"] = i % 3 == 1
@@ -277,6 +282,8 @@ def judge(sc, c, n_before):
     for L, idn, name, d in deps:
         cs = sc.cl[L]
         C["departures"] = C.get("departures", 0) + 1
+        if d.get("nw"):
+            C["departures_while_not_writable"] = C.get("departures_while_not_writable", 0) + 1
         mine = [x for x in closed if x["port"] == cs.addr[1]]
         if d["stage"] != "accepted" or d["way"].startswith("refused"):
             res["nontrivial"] = True
@@ -313,8 +320,11 @@ def judge(sc, c, n_before):
             if p["by"] == "P":
                 V.append({"mech": "probe_not_serviced", "detail": f"publication {pid} by P never serviced"})
             continue
+        nwr = set(sc.rounds[p["round"]].get("nw", ())) if p.get("round") is not None and p["round"] < len(sc.rounds) else set()
         for L in sc.cl:
             n = len(got[L].get(pid, []))
+            if L in nwr:
+                continue    # reported not writable in that round: what it gets or misses is C14's business
             if L in p["must"]:
                 C["probe_deliveries_checked"] = C.get("probe_deliveries_checked", 0) + 1
                 if n != 1:
